@@ -236,6 +236,8 @@ class Engine(ExprMixin, CallMixin, ContractMixin, BuiltinMixin, StmtMixin, LoopM
         post.store["result"] = value
         post.old = entry
         post.pc = st.pc
+        post.ghost = dict(post.ghost)
+        post.ghost["final_store"] = dict(st.store)  # at_return(x): the value of local x at the return point
         for clause in fs.ensures:
             self.oblige(st, "post", clause, self.spec_bool(clause, post), fnode)
         if not fs.qualname.endswith("__init__"):
